@@ -644,12 +644,28 @@ func nestedSeacFont(t *rapid.T) []byte {
 func TestP3Reread(t *testing.T) {
 	rec := ev.New("C17", "reread")
 	defer rec.Finish(t)
-	rec.Rule(fmt.Sprintf("fonts laid out by the independent writer (model fonts of the C06 generator with subrs/flex/several accented composites, and fonts whose composites refer to other composites in chains of 2-6 defined in a drawn order - not conforming, but any accepted input must read deterministically) are read %d times from the same bytes, in half of the cases with other inputs read in between (programs that store into StandardEncoding, FontDirectory, internaldict, errordict, userdict, systemdict, the CIDInit procedure set or the resource directories); all results must be deep-equal. Non-trivial: font has >= 2 composites; distinct by bytes.", repeats))
+	rec.Rule(fmt.Sprintf("fonts laid out by the independent writer (model fonts of the C06 generator with subrs/flex/several accented composites, and fonts whose composites refer to other composites in chains of 2-6 defined in a drawn order - not conforming, but any accepted input must read deterministically; and files that define two or three fonts under different names) are read %d times from the same bytes, in half of the cases with other inputs read in between (programs that store into StandardEncoding, FontDirectory, internaldict, errordict, userdict, systemdict, the CIDInit procedure set or the resource directories); all results must be deep-equal. Non-trivial: font has >= 2 composites; distinct by bytes.", repeats))
 	ev.SetupRapid(3000, 64000)
 	rapid.Check(t, func(t *rapid.T) {
 		var data []byte
 		multi := false
-		if rapid.Bool().Draw(t, "nested") {
+		if k := rapid.IntRange(0, 4).Draw(t, "rereadkind"); k == 0 {
+			// a file that defines two or three fonts under different names:
+			// whatever the reader makes of it, it must make the same of it
+			// every time
+			n := rapid.IntRange(2, 3).Draw(t, "nfonts")
+			for i := 0; i < n; i++ {
+				f, _ := t1gen.GenFont(t, t1gen.FontOpts{NoOperatorNames: true, MaxGlyphs: 3})
+				f.FontInfo.FontName = fmt.Sprintf("Multi%c", 'A'+i)
+				var buf bytes.Buffer
+				if err := f.Write(&buf, &type1.WriterOptions{Format: type1.FormatNoEExec}); err != nil {
+					t.Skip("not writable")
+				}
+				data = append(data, buf.Bytes()...)
+			}
+			multi = true
+			rec.Class("several-fonts-in-one-file")
+		} else if k <= 2 {
 			data = nestedSeacFont(t)
 			multi = true
 			rec.Class("nested-composites")
